@@ -20,6 +20,7 @@ import ast
 from ..astutil import (text, access_path, calls_in, func_params, stmts_of, is_const, const_value, method_call,
                        is_method_call, store_targets, fold)
 from ..loader import where, AnalysisError
+from .. import poly
 from ..paths import Enumerator
 from ..terms import Terms, PathEnv
 
@@ -272,6 +273,10 @@ def check_add(ctx, repo, cls):
 
 
 def check_truncate(ctx, repo, cls):
+    """abstract interpretation of the list values of `truncate` along every path.  A list is described by
+    (order of the feature along it: ASC / DESC / ?, which members it holds: ALL, the `size` LARGEST, the `size`
+    SMALLEST, or a recognised defect); sorting, reversing, slicing and renaming act on this description, so the rule
+    does not depend on the order or the spelling of these steps."""
     mod = cls.module
     fn = cls.methods.get("truncate")
     if fn is None:
@@ -282,8 +287,36 @@ def check_truncate(ctx, repo, cls):
     size = ps[1] if len(ps) > 1 else None
     getter = ps[2] if len(ps) > 2 else None
     content = selfn + "._contents"
+    from ..terms import PathEnv as _PE
     npaths = 0
-    bad = None
+    bad = unknown = None
+    FLIP = {"ASC": "DESC", "DESC": "ASC", "?": "?"}
+
+    def key_state(kf):
+        """True: the key is member.features[getter]; False: a recognised other key; None: not understood"""
+        if isinstance(kf, ast.Name):
+            for nd_ in ast.walk(fn):
+                if isinstance(nd_, ast.FunctionDef) and nd_ is not fn and nd_.name == kf.id and len(nd_.args.args) == 1:
+                    body_ = [x for x in nd_.body if not (isinstance(x, ast.Expr) and isinstance(x.value, ast.Constant))]
+                    if len(body_) == 1 and isinstance(body_[0], ast.Return) and body_[0].value is not None:
+                        kf = ast.Lambda(args=nd_.args, body=body_[0].value)
+        if isinstance(kf, ast.Lambda) and len(kf.args.args) == 1:
+            kb, a0 = text(kf.body), kf.args.args[0].arg
+            if kb == "%s.features[%s]" % (a0, getter):
+                return True
+            if kb.startswith(a0 + "."):
+                return False
+            return None
+        return False if kf is None else None
+
+    def take(state, which):
+        """first / last `size` members of a list in state (order, ALL)"""
+        o, keep = state
+        if keep != "ALL" or o == "?":
+            return (o, "UNKNOWN")
+        largest = (which == "first" and o == "DESC") or (which == "last" and o == "ASC")
+        return (o, "LARGEST" if largest else "SMALLEST")
+
     for p in Enumerator().function_paths(fn):
         if p.outcome == "raise":
             continue
@@ -291,104 +324,128 @@ def check_truncate(ctx, repo, cls):
         larger = None
         for e in p.events:
             if e.kind == "guard" and "larger" in text(e.node):
-                larger = e.val if not (isinstance(e.node, ast.UnaryOp)) else None
-        order = {}   # var -> 'ASC'|'DESC'
-        final = None
-        for e in p.events:
+                g = e.node
+                if isinstance(g, ast.UnaryOp) and isinstance(g.op, ast.Not) and isinstance(g.operand, ast.Name):
+                    larger = not e.val
+                elif isinstance(g, ast.Name):
+                    larger = e.val
+        pe = _PE(fn, p.events)
+        st = {content: ("?", "ALL")}
+        defect = None
+        rev_by_param = False
+
+        def sort_state(call, src_state, i_):
+            nonlocal defect, rev_by_param
+            key = [k.value for k in call.keywords if k.arg == "key"]
+            rev = [k.value for k in call.keywords if k.arg == "reverse"]
+            ks = key_state(key[0] if key else None)
+            if ks is False:
+                defect = defect or "the members are not sorted by the chosen feature (%s)" % text(call)[:90]
+            o = "ASC" if ks else "?"
+            if rev and ks:
+                if is_const(rev[0]):
+                    o = "DESC" if const_value(rev[0]) else "ASC"
+                elif access_path(rev[0]) and "larger" in access_path(rev[0]):
+                    if larger is None:
+                        rev_by_param = True
+                        o = "DESC"          # read as: descending exactly when larger values are preferred
+                    else:
+                        o = "DESC" if larger else "ASC"
+                else:
+                    o = "?"
+            return (o, src_state[1])
+
+        for i_, e in enumerate(p.events):
             if e.kind != "stmt":
                 continue
-            s = e.node
-            if isinstance(s, ast.Assign) and len(s.targets) == 1:
-                t = access_path(s.targets[0])
-                v = s.value
-                if isinstance(v, ast.Call) and access_path(v.func) == "sorted" and v.args:
-                    src = access_path(v.args[0])
-                    key = [k.value for k in v.keywords if k.arg == "key"]
-                    rev = [k.value for k in v.keywords if k.arg == "reverse"]
-                    keyok = None
-                    kf = key[0] if key else None
-                    if isinstance(kf, ast.Name):
-                        # a local function used as key: its single returned expression
-                        for nd_ in ast.walk(fn):
-                            if isinstance(nd_, ast.FunctionDef) and nd_ is not fn and nd_.name == kf.id and len(nd_.body) == 1 \
-                                    and isinstance(nd_.body[0], ast.Return) and len(nd_.args.args) == 1:
-                                kf = ast.Lambda(args=nd_.args, body=nd_.body[0].value)
-                    if isinstance(kf, ast.Lambda) and len(kf.args.args) == 1:
-                        kb = text(kf.body)
-                        arg0 = kf.args.args[0].arg
-                        if kb == "%s.features[%s]" % (arg0, getter):
-                            keyok = True
-                        elif kb.startswith(arg0 + "."):
-                            keyok = False
-                    elif kf is None:
-                        keyok = False
-                    if src != content or keyok is False:
-                        bad = bad or (s, "the members are not sorted by the chosen feature (%s)" % text(v))
-                    elif keyok is None:
-                        bad = bad or (s, "slice/order: sort key %s not understood" % text(kf))
-                    o = "ASC"
-                    if rev:
-                        if is_const(rev[0]):
-                            o = "DESC" if const_value(rev[0]) else "ASC"
-                        elif access_path(rev[0]) and "larger" in access_path(rev[0]):
-                            o = ("DESC" if larger else "ASC") if larger is not None else "DESC-IFF-LARGER"
-                        else:
-                            o = "?"
-                    order[t] = o
-                elif isinstance(v, ast.Name) and v.id in order and t != content:
-                    order[t] = order[v.id]                      # another name for the same list
-                elif isinstance(v, ast.Subscript) and isinstance(v.slice, ast.Slice) and access_path(v.value) in order and t != content \
-                        and v.slice.lower is None and v.slice.upper is None and v.slice.step is not None and is_const(v.slice.step) and const_value(v.slice.step) == -1:
-                    order[t] = {"ASC": "DESC", "DESC": "ASC"}.get(order[access_path(v.value)], "?")     # xs[::-1]
-                elif isinstance(v, ast.Call) and access_path(v.func) in ("list", "reversed") and v.args and t != content:
-                    inner = v.args[0]
-                    flip = access_path(v.func) == "reversed"
-                    if isinstance(inner, ast.Call) and access_path(inner.func) == "reversed" and inner.args:
-                        inner, flip = inner.args[0], not flip
-                    if access_path(inner) in order:
-                        o_ = order[access_path(inner)]
-                        order[t] = {"ASC": "DESC", "DESC": "ASC"}.get(o_, "?") if flip else o_
-                elif isinstance(v, ast.Subscript) and isinstance(v.slice, ast.Slice) and access_path(v.value) in order and t == content:
-                    sl = v.slice
-                    o = order[access_path(v.value)]
-                    if sl.lower is None and access_path(sl.upper) == size and sl.step is None:
-                        final = ("prefix", o)
-                    elif sl.lower is None and isinstance(sl.upper, ast.BinOp) and access_path(sl.upper.left) == size and is_const(sl.upper.right):
-                        final = ("wrong-size:" + text(sl.upper), o)
-                    elif sl.upper is None and isinstance(sl.lower, ast.UnaryOp) and access_path(sl.lower.operand) == size:
-                        final = ("suffix", o)
+            s_ = e.node
+            if isinstance(s_, ast.Assign) and len(s_.targets) == 1 and access_path(s_.targets[0]) is not None:
+                t = access_path(s_.targets[0])
+                v = s_.value
+                if isinstance(v, ast.Call) and access_path(v.func) == "sorted" and v.args and access_path(v.args[0]) in st:
+                    st[t] = sort_state(v, st[access_path(v.args[0])], i_)
+                elif access_path(v) in st:
+                    st[t] = st[access_path(v)]
+                elif isinstance(v, ast.Call) and access_path(v.func) in ("list", "reversed", "tuple") and v.args:
+                    inner, flip = v.args[0], access_path(v.func) == "reversed"
+                    while isinstance(inner, ast.Call) and access_path(inner.func) in ("list", "reversed") and inner.args:
+                        flip = flip != (access_path(inner.func) == "reversed")
+                        inner = inner.args[0]
+                    if access_path(inner) in st:
+                        o, k = st[access_path(inner)]
+                        st[t] = (FLIP[o] if flip else o, k)
                     else:
-                        final = ("other:" + text(v), o)
-            elif isinstance(s, ast.Expr) and is_method_call(s.value, "reverse"):
-                t = access_path(s.value.func.value)
-                if t in order:
-                    order[t] = {"ASC": "DESC", "DESC": "ASC"}.get(order[t], "?")
-            elif isinstance(s, ast.Expr) and is_method_call(s.value, "sort"):
-                t = access_path(s.value.func.value)
-                order[t] = "ASC"
-        if final is None:
-            bad = bad or (fn, "the content list is not replaced by a slice of the sorted members")
-            continue
-        keeps_largest = final in (("prefix", "DESC"), ("suffix", "ASC"))
-        keeps_smallest = final in (("prefix", "ASC"), ("suffix", "DESC"))
+                        st.pop(t, None)
+                elif isinstance(v, ast.Subscript) and isinstance(v.slice, ast.Slice) and access_path(v.value) in st:
+                    src = st[access_path(v.value)]
+                    sl = v.slice
+                    lo = pe.expand_at(sl.lower, i_) if sl.lower is not None else None
+                    hi = pe.expand_at(sl.upper, i_) if sl.upper is not None else None
+                    step = sl.step
+                    srcname = access_path(v.value)
+                    len_minus = pe.expand_at(poly.parse("len(%s) - %s" % (srcname, size)), i_)
+                    if lo is None and hi is None and step is not None and is_const(step) and const_value(step) == -1:
+                        st[t] = (FLIP[src[0]], src[1])
+                    elif lo is None and hi is None and step is None:
+                        st[t] = src
+                    elif step is not None:
+                        st[t] = (src[0], "UNKNOWN")
+                    elif lo is None and access_path(hi) == size:
+                        st[t] = take(src, "first")
+                    elif lo is None and isinstance(hi, ast.BinOp) and isinstance(hi.op, (ast.Add, ast.Sub)) and access_path(hi.left) == size and is_const(hi.right) and const_value(hi.right) != 0:
+                        defect = defect or "the archive is cut to %s members instead of `%s`" % (text(hi), size)
+                        st[t] = (src[0], "UNKNOWN")
+                    elif hi is None and isinstance(lo, ast.UnaryOp) and isinstance(lo.op, ast.USub) and access_path(lo.operand) == size:
+                        st[t] = take(src, "last")
+                    elif hi is None and lo is not None and (poly.equal(lo, len_minus) or poly.equal(lo, poly.parse("len(%s) - %s" % (srcname, size)))):
+                        defect = defect or ("the kept part is %s[%s:] with the lower bound len - %s: when `%s` exceeds the number of members the bound is negative and counts "
+                                            "from the end, so only %s - len members are kept instead of all" % (srcname, text(sl.lower), size, size, size))
+                        st[t] = take(src, "last")
+                    elif hi is None and isinstance(lo, ast.Call) and access_path(lo.func) == "max" and len(lo.args) == 2 \
+                            and any(is_const(a_) and const_value(a_) == 0 for a_ in lo.args) \
+                            and any(poly.equal(a_, len_minus) or poly.equal(a_, poly.parse("len(%s) - %s" % (srcname, size))) for a_ in lo.args):
+                        st[t] = take(src, "last")
+                    else:
+                        st[t] = (src[0], "UNKNOWN")
+                else:
+                    st.pop(t, None)
+            elif isinstance(s_, ast.Expr) and is_method_call(s_.value, "reverse") and access_path(s_.value.func.value) in st:
+                t = access_path(s_.value.func.value)
+                st[t] = (FLIP[st[t][0]], st[t][1])
+            elif isinstance(s_, ast.Expr) and is_method_call(s_.value, "sort") and access_path(s_.value.func.value) in st:
+                t = access_path(s_.value.func.value)
+                st[t] = sort_state(s_.value, st[t], i_)
+            elif isinstance(s_, ast.Delete):
+                for tg in s_.targets:
+                    if isinstance(tg, ast.Subscript) and isinstance(tg.slice, ast.Slice) and access_path(tg.value) in st:
+                        t = access_path(tg.value)
+                        lo = pe.expand_at(tg.slice.lower, i_) if tg.slice.lower is not None else None
+                        if tg.slice.upper is None and tg.slice.step is None and access_path(lo) == size:
+                            st[t] = take(st[t], "first")
+                        else:
+                            st[t] = (st[t][0], "UNKNOWN")
+        final = st.get(content, ("?", "UNKNOWN"))
         want_largest = True if larger is None else larger
-        if final == ("prefix", "DESC-IFF-LARGER"):
-            continue
-        if final[0].startswith("wrong-size"):
-            bad = bad or (fn, "the archive is cut to %s members instead of `%s`" % (final[0].split(":")[1], size))
-        elif final[0].startswith("other") or final[1] == "?":
-            bad = bad or (fn, "slice/order %s not understood" % (final,))
-        elif want_largest and not keeps_largest:
-            bad = bad or (fn, "with larger values preferred the %s of the %s-sorted list is kept: the members with the SMALLEST feature survive" % (final[0], final[1].lower()))
-        elif not want_largest and not keeps_smallest:
-            bad = bad or (fn, "with smaller values preferred the largest are kept")
+        if defect:
+            bad = bad or (fn, defect)
+        elif final[1] == "ALL":
+            bad = bad or (fn, "the content list is left at its full length on the path [%s]" % p.describe(4))
+        elif final[1] == "UNKNOWN":
+            unknown = unknown or (fn, "the members kept on the path [%s] are not understood" % p.describe(4))
+        elif rev_by_param:
+            # DESC iff larger: LARGEST stands for "the preferred end"
+            if final[1] != "LARGEST":
+                bad = bad or (fn, "the unpreferred end of the sorted list is kept")
+        elif want_largest and final[1] != "LARGEST":
+            bad = bad or (fn, "with larger values preferred the members with the SMALLEST feature survive (path [%s])" % p.describe(4))
+        elif not want_largest and final[1] != "SMALLEST":
+            bad = bad or (fn, "with smaller values preferred the largest are kept (path [%s])" % p.describe(4))
     if bad:
-        if "not understood" in bad[1]:
-            ctx.inconclusive("R4", C, where(mod, bad[0]), bad[1])
-        else:
-            ctx.violated("R4", C, where(mod, bad[0]), bad[1])
+        ctx.violated("R4", C, where(mod, bad[0]), bad[1])
+    elif unknown:
+        ctx.inconclusive("R4", C, where(mod, unknown[0]), unknown[1])
     else:
-        ctx.holds("R4", C, where(mod, fn), "sorted by the feature, oriented by larger_preferred, first `size` kept => the largest values survive when larger is preferred (%d paths)" % npaths)
+        ctx.holds("R4", C, where(mod, fn), "sorted by the feature, oriented by larger_preferred, `size` members of the preferred end kept (%d paths)" % npaths)
 
 
 def check_ownership(ctx, repo, cls):
@@ -428,7 +485,8 @@ def check_ownership(ctx, repo, cls):
         if fn is None:
             continue
         selfn = func_params(fn)[0]
-        deleg = [c for c in calls_in(fn) if access_path(c.func) in (selfn + ".add", selfn + ".append")]
+        deleg = [c for c in calls_in(fn) if access_path(c.func) in (selfn + ".add", selfn + ".append", selfn + ".extend", selfn + ".__iadd__")
+                 and access_path(c.func) != selfn + "." + name]
         writes = any(method_call(c) and access_path(method_call(c)[0]) == selfn + "._contents" for c in calls_in(fn))
         ctx.check3(True if deleg else (False if writes else None), "R5", "Archive.%s" % name, where(mod, fn), "inserts through add() (dominance-tested)",
                    "members are put into the content list without the dominance test of add()", "insertion path not recognised", key="delegation")
